@@ -11,7 +11,9 @@ Inductive c10_case :=
 | KPar (b : bytes) (out : option (N * bool))                    (* ParseRevision *)
 | KU64 (r : N) (out : bytes)                                    (* uint64ToBytes via index record value *)
 | KEncl (p k : bytes) (r : N) (inside : bool)                   (* Enc(p,0) <= Enc(k,r) < Enc(PrefixEnd p,0), real code *)
-| KRange (a b k : bytes) (r : N) (inside : bool).               (* Enc(a,0) <= Enc(k,r) < Enc(b,0), real code *)
+| KRange (a b k : bytes) (r : N) (inside : bool)                (* Enc(a,0) <= Enc(k,r) < Enc(b,0), real code *)
+| KBord (cfg lo hi k : bytes) (r : N) (inside : bool).          (* Backend with Config.Prefix = cfg, nothing skipped:
+                                                                   getCompactBorders = [lo; hi]; lo <= Enc(k,r) < hi *)
 
 Definition dec_eqb (x y : dec_result) : bool :=
   match x, y with
@@ -25,6 +27,11 @@ Definition nb_eqb (x y : N * bool) : bool := (fst x =? fst y) && Bool.eqb (snd x
 
 Definition in_bounds (lo hi x : bytes) : bool := bleb lo x && bltb x hi.
 
+(* compact.go's withSlash: the configured prefix always ends in '/' (the empty one becomes "/") *)
+Definition slash : N := 47.
+Definition ends_slash (p : bytes) : bool := match rev p with x :: _ => x =? slash | [] => false end.
+Definition with_slash (p : bytes) : bytes := if ends_slash p then p else p ++ [slash].
+
 Definition c10_check (c : c10_case) : bool :=
   match c with
   | KEnc k r out => beqb (encode k r) out
@@ -36,6 +43,9 @@ Definition c10_check (c : c10_case) : bool :=
   | KU64 r out => beqb (be64 r) out
   | KEncl p k r inside => Bool.eqb (in_bounds (encode p 0) (encode (prefix_end p) 0) (encode k r)) inside
   | KRange a b k r inside => Bool.eqb (in_bounds (encode a 0) (encode b 0) (encode k r)) inside
+  | KBord cfg lo hi k r inside =>
+      beqb lo (encode (with_slash cfg) 0) && beqb hi (encode (prefix_end (with_slash cfg)) 0)
+      && Bool.eqb (in_bounds lo hi (encode k r)) inside
   end.
 
 (* The property, stated on the implementation's own outputs (no model call on the left side):
@@ -55,6 +65,8 @@ Definition c10_oracle (c : c10_case) : option N :=
       else None
   | KRange a b k r inside =>
       if alphab a && alphab b && alphab k then ok_if (Bool.eqb (bleb a k && bltb k b) inside) else None
+  | KBord cfg lo hi k r inside =>
+      if alphab cfg && alphab k then ok_if (Bool.eqb (has_prefix (with_slash cfg) k) inside) else None
   | KPar b out =>
       match out with
       | Some _ => ok_if ((length b =? 8)%nat || (length b =? 9)%nat)
